@@ -2,11 +2,11 @@ package main
 
 import (
 	"fmt"
-	"regexp/syntax"
-	"strconv"
 	"go/token"
 	"go/types"
+	"regexp/syntax"
 	"sort"
+	"strconv"
 	"strings"
 
 	"golang.org/x/tools/go/ssa"
@@ -342,7 +342,6 @@ func ruleExhaustiveTypeSwitch(id string) func(*Checker) {
 	}
 }
 
-
 // ruleDiagsReachResult — diagnostics gathered during a build are appended to
 // what the function returns, not to a variable of the same name.
 func ruleDiagsReachResult(id string) func(*Checker) {
@@ -570,6 +569,7 @@ func ruleFetchMemoOnly(id string) func(*Checker) {
 func ruleGlobalAddrNotShared(id string) func(*Checker) {
 	return func(c *Checker) {
 		c.rule(id, "Outside package initialisation, nothing reachable from Pack, Unpack or the ignore-rule code takes the address of a package-level variable of a struct or array type and calls a method on it or hands it to a function (`scan := &patternScanner; scan.Init(…)`): scratch state kept in a package-level variable 'to save an allocation' is shared by every call in the process, and two Pack calls running at the same time interleave on it.", 1)
+		c.absence(id)
 		p := c.P
 		entries := packSideEntries(p)
 		n := 0
@@ -847,6 +847,7 @@ func ruleC19SameFile(c *Checker) {
 func ruleEntryNameAsSpelled(id string) func(*Checker) {
 	return func(c *Checker) {
 		c.rule(id, "In the UnpackInfo constructor the header's Name reaches the path that is created through path/filepath functions, slicing and concatenation only: a character-level rewrite of the name (strings.ReplaceAll, Map, ToLower, Replacer, TrimSpace …) on the unpack side alone changes which files come out — a backslash is an ordinary file-name byte on the systems this runs on, and Pack writes it as it is, so `notes\\2024.txt` would come back as a directory `notes`.", 1)
+		c.absence(id)
 		p := c.P
 		n := 0
 		for _, fn := range p.Funcs {
@@ -855,7 +856,7 @@ func ruleEntryNameAsSpelled(id string) func(*Checker) {
 			}
 			// values derived from header.Name
 			isName := func(v ssa.Value) bool {
-				for w := range p.backSlice(v, 0) {
+				for w := range p.backSlice(v, 2) { // through the parameters of private helpers
 					var f *types.Var
 					switch x := w.(type) {
 					case *ssa.FieldAddr:
@@ -988,6 +989,7 @@ func ruleAcceptedLinkIsCreated(id string) func(*Checker) {
 func ruleURLHostUntouched(id string) func(*Checker) {
 	return func(c *Checker) {
 		c.rule(id, "No function of the address package stores into the Host field of a url.URL anything but that same field's value case-folded: a host rebuilt from Hostname() and Port() loses the brackets of an IPv6 literal, and the address then prints to a string that no longer parses.", 0)
+		c.absence(id)
 		p := c.P
 		n := 0
 		for _, fn := range p.Funcs {
@@ -1021,6 +1023,7 @@ func ruleURLHostUntouched(id string) func(*Checker) {
 func ruleNoSingleMember(id string) func(*Checker) {
 	return func(c *Checker) {
 		c.rule(id, "Nothing in the slug package calls (*gzip.Reader).Multistream: with multistream off the reader stops at the end of the first gzip member, a slug whose tar stream spans several members is unpacked in part and reported as a success, and damage in later members is never read.", 0)
+		c.absence(id)
 		p := c.P
 		n := 0
 		for _, fn := range p.Funcs {
@@ -1287,6 +1290,7 @@ func ruleTypePrefixAnchored(id string) func(*Checker) {
 func ruleSameKeyForm(id string) func(*Checker) {
 	return func(c *Checker) {
 		c.rule(id, "If any access (lookup or store) of a map field of Builder or Bundle uses a key that was passed through a module function from the key type to itself (a canonicaliser: lower-cased host, cleaned path), then every access of that field, and of every other map field of the same struct with the same key type, does: a table written under canonical keys and read under the caller's spelling answers \"not there\" for every key that differs from its canonical form — the metadata of a package whose host is spelled GitHub.com.", 0)
+		c.absence(id)
 		p := c.P
 		type access struct {
 			fn    *ssa.Function
